@@ -918,6 +918,31 @@ func c15Bases(rng *RNG) []c15Base {
 		s2.RegularLoop(c15LL(40, -75), 0.5*s1.Radian, 5),
 		s2.RegularLoop(c15LL(40, -75), 0.1*s1.Radian, 4)}), false, false)
 	addPoly("full", s2.FullPolygon(), false, false)
+	// more than maxLinearSearchLoops (12) loops: Edge / ChainPosition use the cumulative-edge search; and the same encoding with
+	// one loop replaced by a ZERO-vertex loop (decodes without error; the duplicate entry in cumulativeEdges must not send
+	// Edge() into the empty loop — seeded change C15_5)
+	{
+		var ls []*s2.Loop
+		for k := 0; k < 15; k++ {
+			ls = append(ls, s2.RegularLoop(c15LL(-60+8*float64(k), -170+23*float64(k)), 0.03*s1.Radian, 3+k%3))
+		}
+		many := s2.PolygonFromLoops(ls)
+		addPoly("many", many, false, false)
+		if b := c15EncBytes(many.Encode); len(b) > 0 && b[0] == 1 {
+			// header: version, legacy bool, hasHoles, uint32 numLoops; then the loops; then the bound
+			out := append([]byte(nil), b[:7]...)
+			for k, l := range many.Loops() {
+				lb := c15EncBytes(l.Encode)
+				if k == 6 {
+					// version, nvertices = 0, originInside = 0, depth = 0, empty bound
+					lb = append([]byte{1, 0, 0, 0, 0, 0, 0, 0, 0, 0}, emptyRect...)
+				}
+				out = append(out, lb...)
+			}
+			out = append(out, b[len(b)-len(emptyRect):]...)
+			add(c15Base{typ: "polygon", name: "unc-many-zero", data: out, fields: c15PolyUncFields()[:1]})
+		}
+	}
 
 	// polygons, compressed (version 4): all/most vertices at cell centres
 	snap := func(p s2.Point, level int) s2.Point { return s2.CellFromPoint(p).ID().Parent(level).Point() }
